@@ -40,6 +40,9 @@ Call ==
     [] A.act = "vsa"       -> VSetAtom(A.i, A.b, A.p)
     [] A.act = "vtr"       -> VTranslate(A.i, A.v)
     [] A.act = "setw"      -> SetW(A.i, A.w)
+    [] A.act = "asc"       -> AssignC(A.X)
+    [] A.act = "asq"       -> AssignQ(A.X)
+    [] A.act = "asw"       -> AssignW(A.X)
     [] A.act = "start"     -> StartIter(A.it)
     [] A.act = "next"      -> NextIt(A.it)
     [] A.act = "collect"   -> Collect(A.it)
@@ -73,7 +76,7 @@ TraceNext == Step \/ Finish \/ Stuck
 TraceSpec == TraceInit /\ [][TraceNext]_tvars
 
 Iters3  == {"i1", "i2", "i3"}
-OpsAll  == {"grow", "iter", "view", "xform", "dump", "io", "copy"}
+OpsAll  == {"grow", "iter", "view", "xform", "dump", "io", "copy", "append"}
 FreeAll == {"qown", "qzero", "wsrc", "wone", "adopt", "refuse", "ext0ok", "ext0err"}
 NoPool  == <<>>
 NoSet   == {}
